@@ -197,13 +197,26 @@ class Executor(ExprMixin, CallMixin, ContractMixin, StmtMixin):
         # functions that must *return* under a condition: ensures(on='both') are evaluated with result undefined -> skip
 
 
-def global_axioms(used_classes, reg):
-    ax = CLASSES.axioms(set(used_classes) | {"object", "int", "bool", "str", "list", "tuple", "dict", "NoneType", "MarkerObject"})
-    ax += CONSTS.axioms()
+def global_axioms(used_classes, reg, terms=None):
+    """terms: when given (the sliced hypotheses and the goal of one obligation), the class-table and constant-table facts
+    are restricted to the classes / constants that occur in them or in the theory axioms (dropping facts about symbols
+    an obligation does not mention is sound and keeps a query independent of which other kernels share the run)"""
+    hooks = []
+    for fn in getattr(reg, "axiom_hooks", []):
+        hooks += fn(used_classes)
+    base = {"object", "int", "bool", "str", "list", "tuple", "dict", "NoneType", "MarkerObject"}
+    if terms is None:
+        ax = CLASSES.axioms(set(used_classes) | base)
+        ax += CONSTS.axioms()
+    else:
+        from .solve import const_names
+        occ = const_names(list(terms) + hooks)
+        cls = {n for n, c in CLASSES.consts.items() if c.decl().name() in occ}
+        ax = CLASSES.axioms((cls | base) & (set(used_classes) | base | cls))
+        ax += CONSTS.axioms(only=occ)
     a, b = z3.Consts("pa pb", V)
     ax += Q.global_axioms()
     ax.append(z3.ForAll([a], pyeq(a, a)))
     ax.append(z3.ForAll([a, b], pyeq(a, b) == pyeq(b, a)))
-    for fn in getattr(reg, "axiom_hooks", []):
-        ax += fn(used_classes)
+    ax += hooks
     return ax
